@@ -1,7 +1,7 @@
 SPECIFICATION GSpec
 CONSTANTS
   Spaces = {0, 1, 2}
-  MaxPn = 7
+  MaxPn = 6
   Sizes = {1, 3}
   Wnds = {0}
   GenDepth = 26
